@@ -189,6 +189,9 @@ def run(tier="quick", replay=None):
                 rv = ds[0][3]["rv"]
                 a = ex.operand(rv["a"])
                 c = op_int(rv["b"])
+                if c is None:
+                    be = ex.operand(rv["b"])
+                    c = ev(be, 0) if not ex.has_size(be) else None     # e.g. `1 << 6`, a named constant expression
                 if a == ("size",) and c is not None and rv["op"] in ("Lt", "Le", "Gt", "Ge") and c >= 0x40:
                     arms = dict((v, g) for v, g in t["arms"])
                     guards.append({"bb": bb, "op": rv["op"], "c": c, "true": t["otherwise"] if 0 in arms else arms.get(1),
